@@ -1,6 +1,7 @@
 package main
 
 import (
+	"encoding/json"
 	"fmt"
 	"math/rand"
 	"net/http"
@@ -17,7 +18,7 @@ import (
 var namePool = []string{
 	"alice", "bob", "system:anonymous", "system:serviceaccount:ns1:sa1", "system:serviceaccount:kube-system:a.b-c",
 	"system:serviceaccount:Ns:x", "system:serviceaccount:ns1:", "system:serviceaccount:ns1:sa1:x", "system:serviceaccount:-ns:sa",
-	"system:admin", "a b", "al%ice", "al%41ice", "\xc3\xa9ve", "x:y", "Alice", "a,b", "\xff\xfe", "user@example.com",
+	"system:admin", "kube-apiserver", "system:apiserver", "system:kube-controller-manager", "system:kube-scheduler", "a b", "al%ice", "al%41ice", "\xc3\xa9ve", "x:y", "Alice", "a,b", "\xff\xfe", "user@example.com",
 }
 var edgeNames = []string{" alice", "alice ", "\talice", "alice\t ", " ", ""}
 var invalidNames = []string{"al\nice", "a\x01b", "a\x7fb", "a\rb"}
@@ -71,6 +72,10 @@ func genIdent(r *rand.Rand, wild bool) *Ident {
 			g = rig.Pick(r, invalidNames)
 		}
 		id.Groups = append(id.Groups, rig.Hex(g))
+	}
+	if r.Intn(5) == 0 { // privileged-looking requestors
+		id.Groups = append(id.Groups, rig.Hex(rig.Pick(r, []string{"system:masters", "system:masters", "system:authenticated", "system:unauthenticated", "system:nodes"})))
+		r.Shuffle(len(id.Groups), func(a, b int) { id.Groups[a], id.Groups[b] = id.Groups[b], id.Groups[a] })
 	}
 	seen := map[string]bool{}
 	for i, n := 0, r.Intn(4); i < n; i++ {
@@ -262,7 +267,7 @@ func genCase(c *rig.Ctx, i int) Case {
 			saNs = d.Ns
 		}
 	}
-	refusal := func() string { return rig.Pick(r, []string{"deny", "deny", "noopinion", "error"}) }
+	refusal := func() string { return rig.Pick(r, []string{"deny", "deny", "noopinion", "error", "error403"}) }
 	shift := func(d Deny) Deny { // the same record in another namespace
 		if rig.UnHex(d.Res) == "serviceaccounts" {
 			d.Ns = rig.Hex(rig.Pick(r, []string{"", "other", "kube-system"}))
@@ -391,4 +396,38 @@ func sweepKey(c *rig.Ctx, k string) {
 				What: fmt.Sprintf("headerKeyEscape(%q): code %q header %q decoded %q, model %q header %q decoded %q", k, esc, header, dec, rig.UnHex(m.Escaped), rig.UnHex(m.Header), rig.UnHex(m.Decoded))})
 		}
 	}
+}
+
+// jsonSweep ties the model's jsonCarried (what a SubjectAccessReview carries of a string) to Go's encoding/json round trip.
+func jsonSweep(c *rig.Ctx) {
+	strs := []string{"", "bob", "\xff\xfe", "\xc3\xa9", "\xc3", "\xe2\x82\xac", "\xe2\x82", "\xed\xa0\x80", "\xf0\x9f\x98\x80", "\xf4\x90\x80\x80", "\xc0\xaf", "\xef\xbf\xbd", "a<b>&c\u2028", "\x00\x7f"}
+	for i, n := 0, c.Budget(400, 20000); i < n; i++ {
+		strs = append(strs, randBytes(c.Rng, "ab\x80\xbf\xc2\xc3\xe0\xa0\xed\x9f\xef\xf0\x90\xf4\x8f\xf5\xff\"\\<", 7))
+	}
+	for _, s := range strs {
+		if !jsonSweepOne(c, s) {
+			return
+		}
+	}
+}
+
+func jsonSweepOne(c *rig.Ctx, s string) bool {
+	{
+		b, _ := json.Marshal(s)
+		var back string
+		json.Unmarshal(b, &back)
+		var m struct{ Carried string }
+		cs := map[string]string{"s": rig.Hex(s)}
+		c.Case("json:"+s, true, "json-sweep", nil)
+		if err := c.Model("C02.json", cs, &m); err != nil {
+			c.Fail(rig.Failure{Kind: "diff", Class: "c02.model-error", What: "model error: " + err.Error(), Case: cs})
+			return false
+		}
+		if rig.UnHex(m.Carried) != back {
+			c.Fail(rig.Failure{Kind: "diff", Class: "c02.json-carried", Case: cs, Impl: back, Model: rig.UnHex(m.Carried),
+				What: fmt.Sprintf("JSON carries %q as %q, model says %q", s, back, rig.UnHex(m.Carried))})
+			return false
+		}
+	}
+	return true
 }
